@@ -137,7 +137,7 @@ def model_lines(c):
 def run(ctx):
     ctx.prove('LPVerif.Props.C18', 'LPVerif/Props/C18.lean', drivers=('FS',))
     build = ctx.build()
-    n = 150 if ctx.quick else 12000
+    n = 300 if ctx.quick else 12000
     if ctx.broken:
         n *= 3
     cases = [make_case(ctx.rng.fork('t%d' % i)) for i in range(n)]
